@@ -102,7 +102,7 @@ func (s *sim) runOps() error {
 				return err
 			}
 		case "start":
-			if err := s.start(a, op.Order, step); err != nil {
+			if err := s.start(a, op.Order, step, op.BreakAfter); err != nil {
 				return err
 			}
 			s.rep.Class("restart")
@@ -113,7 +113,7 @@ func (s *sim) runOps() error {
 			if err := s.stop(a, step); err != nil {
 				return err
 			}
-			if err := s.start(a, op.Order, step); err != nil {
+			if err := s.start(a, op.Order, step, op.BreakAfter); err != nil {
 				return err
 			}
 			s.rep.Class("restart")
@@ -238,7 +238,7 @@ func executeCluster(sc Script, rep *kit.Report) error {
 	s.event("final: heal")
 	for _, n := range s.nodes {
 		if !n.up {
-			if err = s.start(n, nil, "final"); err != nil {
+			if err = s.start(n, nil, "final", 0); err != nil {
 				return finish(s, rep, err)
 			}
 			if err = s.checkAll("final start of "+n.label(), "recovery"); err != nil {
